@@ -3,9 +3,10 @@
 set -u
 patch="$1"; id="$2"; tier="${3:-quick}"
 cd /repo || exit 2
-if ! git diff --quiet; then echo "/repo is dirty, refusing"; exit 2; fi
+if ! git diff --quiet || [ -n "$(git status --porcelain -- contracts packages)" ]; then echo "/repo is dirty, refusing"; exit 2; fi
 git apply "$patch" || { echo "patch does not apply"; exit 2; }
 ( cd /verif && ./check "$id" "$tier" ); rc=$?
-git -C /repo checkout -- . 
+git -C /repo checkout -- .
+git -C /repo clean -fdq -- contracts packages   # a change may add files
 echo "exit=$rc"
 exit $rc
